@@ -26,7 +26,7 @@ RULE = (
 )
 ASSUMPTIONS = [
     "float64 session",
-    "growth bounded: Re(sigma) * n * dt <= 5 by reducing n",
+    "growth bounded: Re(sigma) * n * dt <= 5, max_k Re(lambda_k) * n * dt <= 5 and (hydrodynamic instability of the laminar flow) b*|omega_laminar|*t <= 5, all by reducing the number of steps n",
     "x_1 denotes the second coordinate (array axis 1 of the spatial axes), as in the docstrings",
 ]
 
@@ -108,6 +108,18 @@ def lam_check(case):
     if sig.real * n * dt > 5.0:
         spec = dict(spec, dt=5.0 / sig.real)
         dt = spec["dt"]
+    # the laminar shear flow is an exact solution but hydrodynamically unstable at large amplitude: rounding
+    # noise grows like exp(b * |omega_laminar| * t) (2D; 3D: kappa * |u_laminar|). Keep that exponent <= 5.
+    bconv = abs(kw.get("convection_scale", kw.get("vorticity_convection_scale", 1.0)))
+
+    def nl_exponent(nn):
+        tt = nn * dt
+        zz = sig * tt
+        a_ = abs(A) * abs(tt if abs(zz) < 1e-300 else complex(orc.phi1(np.array([zz]))[0]) * tt)
+        return bconv * a_ * (1.0 if D == 2 else kap) * tt
+
+    while n > 1 and nl_exponent(n) > 5.0:
+        n -= 1
     t = n * dt
     C = model.num_channels(spec)
     ok, S = res.lib("construct", reg.build, spec, key=key)
